@@ -546,13 +546,13 @@ class PrefixFlow:
             if srcs and all(s == 'whitespace' for s in srcs) and k == 0:
                 return 'ws'
             return None
-        tests = _enclosing_tests(site, f.node)
+        from ..facts import facts_at, holds
+        facts = facts_at(site, f.node)
         if isinstance(t, ast.Name) and t.id == 'token':
-            for te in tests:
-                if te == "initial in '\\r\\n'":
-                    return 'nl'
-                if te == "initial == '#'":
-                    return 'comment'
+            if holds(facts, "initial in '\\r\\n'"):
+                return 'nl'
+            if holds(facts, "initial == '#'"):
+                return 'comment'
             return None
         # X[:n] with n = len(X) - len(X.lstrip(CHARS)): the leading run of characters from CHARS
         if isinstance(t, ast.Subscript) and isinstance(t.slice, ast.Slice) and t.slice.lower is None \
@@ -566,9 +566,8 @@ class PrefixFlow:
                     return 'ws'
             return None
         if isinstance(t, ast.Subscript) and norm(t) == 'line[start:]':
-            for te in tests:
-                if "line[start:] in ('\\\\\\n', '\\\\\\r\\n', '\\\\\\r')" in te and "initial == '\\\\'" in te:
-                    return 'bsnl'
+            if holds(facts, "initial == '\\\\' and line[start:] in ('\\\\\\n', '\\\\\\r\\n', '\\\\\\r')"):
+                return 'bsnl'
             return None
         return None
 
